@@ -165,6 +165,11 @@ def projection(lines):
     return lines[1:]
 
 
+def projection_noreads(lines):
+    """what must not depend on when and in which portions the input arrives: everything but the reads"""
+    return [l for l in lines[1:] if not l.startswith('{"e":"Read"')]
+
+
 def validate(trace_path, cases_path, timeout=600):
     n = sum(1 for _ in open(trace_path))
     r = tlc.run("Trace_Scanner", env={"TRACE": trace_path, "CASES": cases_path}, workers=1, timeout=timeout)
